@@ -189,6 +189,17 @@ def a2(ctx: Ctx):
                 for g in node.generators:
                     for c in g.ifs:
                         filt.append((c, g.iter))
+            # the same filter written as a loop (`if not x: continue` / `if x: keep`) or as filter(None, xs)
+            if isinstance(node, ast.For) and isinstance(node.target, ast.Name):
+                for st_ in node.body:
+                    if isinstance(st_, ast.If):
+                        t_ = st_.test
+                        if isinstance(t_, ast.Name) and t_.id == node.target.id:
+                            filt.append((t_, node.iter))
+                        elif isinstance(t_, ast.UnaryOp) and isinstance(t_.op, ast.Not) and isinstance(t_.operand, ast.Name) and t_.operand.id == node.target.id and st_.body and isinstance(st_.body[-1], ast.Continue):
+                            filt.append((t_.operand, node.iter))
+            if isinstance(node, ast.Call) and isinstance(node.func, ast.Name) and node.func.id == "filter" and len(node.args) == 2 and isinstance(node.args[0], ast.Constant) and node.args[0].value is None:
+                filt.append((ast.Name(id="element", ctx=ast.Load()), node.args[1]))
             for cond, it in filt:
                 if not isinstance(cond, ast.Name):
                     continue
@@ -698,3 +709,18 @@ def a4(ctx: Ctx):
                     line=c.lineno,
                     witness="" if guarded else "10 FOR I=1 TO 3:NEXT I,J",
                 )
+
+
+# ---------------------------------------------------------------------------
+# G15 NODE-MISUSE
+
+
+@rule("G15", "NODE-MISUSE: no visitor reads a construct attribute (`.operator`, `.literal` ...) from a raw parse node - every token a visitor treats as a construct has been turned into one (generic_visit's token set covers the grammar's operator spellings)", ["C15", "C01"], floor=1, default_props=["C15"])
+def g15(ctx: Ctx):
+    from .rules_abs import rule_values
+
+    I = interp(ctx)
+    vals = rule_values(ctx)
+    errs = list(getattr(I, "node_attr_errors", []))
+    ctx.ob("visitors", not errs, "" if not errs else "; ".join(f"attribute `.{a}` is read from the parse node of `{d}`" + (f" (text {sorted(l)[:4]})" if l else "") for d, a, l in errs[:4]) + ": the node was not converted into a construct, conversion fails with an AttributeError inside parsimonious' VisitationError", file=PARSER_REL, line=1, facts={"rules_evaluated": len(vals)}, witness="" if not errs else "10 IF A=<B THEN 20")
+    ctx.need(len(vals) >= 50, "rule values", f"only {len(vals)} grammar rules evaluated")
